@@ -431,6 +431,16 @@ class Mailbox:
                     # there are no other commands running
                     #
                     return True
+
+                # A STORE that is still running may be about to flag messages
+                # as `\Deleted`. If we let the EXPUNGE start now it would
+                # find and remove those messages while the STORE is still
+                # working on them.
+                #
+                if any(
+                    x.command == IMAPCommand.STORE for x in self.executing_tasks
+                ):
+                    return True
                 return False
 
             case IMAPCommand.COPY:
